@@ -1,0 +1,785 @@
+//go:build verif
+
+package syncx
+
+import (
+	"encoding/json"
+	"errors"
+	"fmt"
+	"io"
+	"runtime"
+	"strconv"
+	"strings"
+	"sync"
+	"sync/atomic"
+	"testing"
+	"time"
+
+	"github.com/gotid/god/internal/verifdrv"
+	"github.com/gotid/god/lib/timex"
+)
+
+// The driver runs scripted goroutines against one primitive. A controller executes the case's
+// schedule: "t" lets a goroutine start its next operation, "o" opens a gate that user callbacks
+// wait on, "a" advances the virtual clock (ms), "w" sleeps (ms, real time). After every step the
+// controller waits until the system is quiescent: every goroutine is idle, waits at a closed gate,
+// or is blocked inside the primitive (goroutine state taken from runtime.Stack). Every
+// invocation, response and callback is appended to one history.
+
+type vOp struct {
+	Code int `json:"code"`
+	A    int `json:"a"`
+	B    int `json:"b"`
+	C    int `json:"c"`
+}
+
+type vStep struct {
+	K string `json:"k"`
+	V int    `json:"v"`
+}
+
+type vCase struct {
+	Prim    string  `json:"prim"`
+	N       int     `json:"n"`
+	M       int     `json:"m"`
+	Scripts [][]vOp `json:"scripts"`
+	Sched   []vStep `json:"sched"`
+	Free    bool    `json:"free"` // no forced schedule: all goroutines run freely with seeded yields
+	Seed    int64   `json:"seed"`
+}
+
+const (
+	vIdle = iota
+	vRunning
+	vAtGate
+	vDone
+)
+
+const (
+	kInv = iota
+	kRet
+	kBegin
+	kEnd
+)
+
+type vThread struct {
+	id       int
+	goid     int64
+	kick     chan struct{}
+	status   int // under env.mu
+	gate     int
+	spinning int32
+	results  [][2]int
+	held     []int
+}
+
+type vEnv struct {
+	mu       sync.Mutex
+	hist     [][6]int
+	threads  []*vThread
+	gates    map[int]chan struct{}
+	open     map[int]bool
+	timeouts int
+	progress int64 // bumped (under mu) by every event and every status change
+	aborted  bool
+	stuck    int
+	goids    map[int64]int
+	spinlock *SpinLock
+}
+
+func vGoid() int64 {
+	var buf [64]byte
+	n := runtime.Stack(buf[:], false)
+	f := strings.Fields(string(buf[:n]))
+	if len(f) < 2 {
+		return -1
+	}
+	id, _ := strconv.ParseInt(f[1], 10, 64)
+	return id
+}
+
+func (e *vEnv) log(t, kind, op, a, b, c int) {
+	e.mu.Lock()
+	if len(e.hist) >= 1500 {
+		// runaway loop inside the primitive: stop recording, give up on the case, park the caller
+		e.aborted = true
+		e.mu.Unlock()
+		select {}
+	}
+	e.hist = append(e.hist, [6]int{t, kind, op, a, b, c})
+	e.progress++
+	e.mu.Unlock()
+}
+
+// self returns the thread id of the calling goroutine (callbacks have no other way to know it).
+func (e *vEnv) self() int {
+	id := vGoid()
+	e.mu.Lock()
+	defer e.mu.Unlock()
+	if t, ok := e.goids[id]; ok {
+		return t
+	}
+	return 999
+}
+
+func (e *vEnv) gateCh(g int) chan struct{} {
+	ch, ok := e.gates[g]
+	if !ok {
+		ch = make(chan struct{})
+		e.gates[g] = ch
+	}
+	return ch
+}
+
+// waitGate blocks the calling thread until gate g is open (g == 0: no gate).
+func (e *vEnv) waitGate(t *vThread, g int) {
+	if g == 0 {
+		return
+	}
+	e.mu.Lock()
+	if e.open[g] {
+		e.mu.Unlock()
+		return
+	}
+	ch := e.gateCh(g)
+	t.status, t.gate = vAtGate, g
+	e.progress++
+	e.mu.Unlock()
+	<-ch
+}
+
+func (e *vEnv) openGate(g int) {
+	e.mu.Lock()
+	if !e.open[g] {
+		e.open[g] = true
+		for _, t := range e.threads {
+			if t.status == vAtGate && t.gate == g {
+				t.status = vRunning
+			}
+		}
+		close(e.gateCh(g))
+	}
+	e.mu.Unlock()
+}
+
+// goroutine states that mean "will not move until somebody else acts"
+func vBlockedState(s string) bool {
+	for _, p := range []string{"chan ", "select", "semacquire", "sync."} {
+		if strings.HasPrefix(s, p) {
+			return true
+		}
+	}
+	return false
+}
+
+func vStates() map[int64]string {
+	buf := make([]byte, 1<<16)
+	for {
+		n := runtime.Stack(buf, true)
+		if n < len(buf) {
+			buf = buf[:n]
+			break
+		}
+		buf = make([]byte, 2*len(buf))
+	}
+	res := map[int64]string{}
+	for _, line := range strings.Split(string(buf), "\n") {
+		if !strings.HasPrefix(line, "goroutine ") {
+			continue
+		}
+		rest := line[len("goroutine "):]
+		sp := strings.IndexByte(rest, ' ')
+		if sp < 0 {
+			continue
+		}
+		id, err := strconv.ParseInt(rest[:sp], 10, 64)
+		if err != nil {
+			continue
+		}
+		lb := strings.IndexByte(rest, '[')
+		if lb < 0 {
+			continue
+		}
+		st := rest[lb+1:]
+		if i := strings.IndexAny(st, ",]"); i >= 0 {
+			st = st[:i]
+		}
+		res[id] = st
+	}
+	return res
+}
+
+func (e *vEnv) isAborted() bool {
+	e.mu.Lock()
+	defer e.mu.Unlock()
+	return e.aborted
+}
+
+// quiesce waits (bounded) until no thread can move without the controller: two observations,
+// a yield apart, in which every thread inside a call is blocked and nothing has progressed
+// (a goroutine briefly blocked on the driver's own mutex moves between the two observations).
+func (e *vEnv) quiesce() {
+	deadline := time.Now().Add(3 * time.Second)
+	observe := func() (running []*vThread, prog int64, blocked bool) {
+		e.mu.Lock()
+		for _, t := range e.threads {
+			if t.status == vRunning {
+				running = append(running, t)
+			}
+		}
+		prog = e.progress
+		e.mu.Unlock()
+		if len(running) == 0 {
+			return running, prog, true
+		}
+		states := vStates()
+		for _, t := range running {
+			if atomic.LoadInt32(&t.spinning) == 1 && e.spinlock != nil && atomic.LoadUint32(&e.spinlock.lock) == 1 {
+				continue // spinning on a held lock
+			}
+			if !vBlockedState(states[atomic.LoadInt64(&t.goid)]) {
+				return running, prog, false
+			}
+		}
+		return running, prog, true
+	}
+	for {
+		r1, p1, ok1 := observe()
+		if ok1 && len(r1) == 0 {
+			return
+		}
+		if ok1 {
+			runtime.Gosched()
+			time.Sleep(150 * time.Microsecond)
+			r2, p2, ok2 := observe()
+			if ok2 && p1 == p2 && len(r1) == len(r2) {
+				same := true
+				for i := range r1 {
+					if r1[i] != r2[i] {
+						same = false
+					}
+				}
+				if same {
+					return
+				}
+			}
+		}
+		if time.Now().After(deadline) {
+			e.mu.Lock()
+			e.timeouts++
+			e.aborted = true // something spins or sleeps: give up on this case quickly
+			e.mu.Unlock()
+			return
+		}
+		runtime.Gosched()
+		time.Sleep(20 * time.Microsecond)
+	}
+}
+
+type vRes struct {
+	id  int
+	env *vEnv
+}
+
+func (r *vRes) Close() error {
+	r.env.log(r.env.self(), kEnd, 1, r.id, 0, 0)
+	return nil
+}
+
+var errVerifCreate = errors.New("create failed")
+
+// TestVerifDriver interprets one case per input line.
+func TestVerifDriver(t *testing.T) {
+	verifdrv.Run(t, func(raw json.RawMessage) any {
+		var c vCase
+		if err := json.Unmarshal(raw, &c); err != nil {
+			return map[string]any{"error": err.Error()}
+		}
+		return vRun(&c)
+	})
+}
+
+func vRun(c *vCase) any {
+	env := &vEnv{gates: map[int]chan struct{}{}, open: map[int]bool{}, goids: map[int64]int{}}
+	timex.VerifSetNow(time.Hour)
+	defer timex.VerifClockOff()
+	nowMs := func() int { return int((timex.Now() - time.Hour) / time.Millisecond) }
+
+	// ---- the primitive under test and the interpretation of one operation
+	var exec func(th *vThread, op vOp) [2]int
+	var drain func() bool // one unblocking action by the controller; false if none applies
+	switch c.Prim {
+	case "sf":
+		g := NewSingleFlight()
+		exec = func(th *vThread, op vOp) [2]int {
+			executed := 0
+			fn := func() (any, error) {
+				executed = 1
+				env.log(th.id, kBegin, 0, op.A, 0, 0)
+				env.waitGate(th, op.B)
+				env.log(th.id, kEnd, 0, op.A, op.C, 0)
+				return op.C, nil
+			}
+			key := "k" + strconv.Itoa(op.A)
+			env.log(th.id, kInv, 0, op.A, 0, 0)
+			var v any
+			flag := 0
+			if op.Code == 0 {
+				var fresh bool
+				v, fresh, _ = g.DoEx(key, fn)
+				if fresh {
+					flag = 1
+				}
+				if flag != executed {
+					flag = 7 // DoEx's fresh flag disagrees with what happened
+				}
+			} else {
+				v, _ = g.Do(key, fn)
+				flag = executed
+			}
+			val, _ := v.(int)
+			env.log(th.id, kRet, 0, op.A, val, flag)
+			return [2]int{flag, val}
+		}
+	case "lc":
+		g := NewLockedCalls()
+		exec = func(th *vThread, op vOp) [2]int {
+			executed := 0
+			fn := func() (any, error) {
+				executed++
+				env.log(th.id, kBegin, 1, op.A, 0, 0)
+				env.waitGate(th, op.B)
+				env.log(th.id, kEnd, 1, op.A, op.C, 0)
+				return op.C, nil
+			}
+			env.log(th.id, kInv, 1, op.A, 0, 0)
+			v, _ := g.Do("k"+strconv.Itoa(op.A), fn)
+			val, _ := v.(int)
+			env.log(th.id, kRet, 1, op.A, val, executed)
+			return [2]int{executed, val}
+		}
+	case "lim":
+		l := NewLimit(c.N)
+		do := func(t int, op vOp) int {
+			env.log(t, kInv, op.Code, op.A, op.B, op.C)
+			r := 0
+			switch op.Code {
+			case 0:
+				l.Borrow()
+			case 1:
+				if l.TryBorrow() {
+					r = 1
+				}
+			default:
+				if err := l.Return(); err == ErrLimitReturn {
+					r = 1
+				} else if err != nil {
+					r = 9
+				}
+			}
+			env.log(t, kRet, op.Code, r, 0, 0)
+			return r
+		}
+		exec = func(th *vThread, op vOp) [2]int { return [2]int{do(th.id, op), 0} }
+		drain = func() bool { do(1000, vOp{Code: 2}); return true }
+	case "ref":
+		var r *RefResource
+		ran := map[int]bool{}
+		r = NewRefResource(func() {
+			t := env.self()
+			env.mu.Lock()
+			ran[t] = true
+			env.mu.Unlock()
+		})
+		exec = func(th *vThread, op vOp) [2]int {
+			env.log(th.id, kInv, op.Code, 0, 0, 0)
+			res := 0
+			if op.Code == 0 {
+				if err := r.Use(); err == ErrUseOfCleaned {
+					res = 1
+				} else if err != nil {
+					res = 9
+				}
+			} else {
+				env.mu.Lock()
+				ran[th.id] = false
+				env.mu.Unlock()
+				r.Clean()
+				env.mu.Lock()
+				if ran[th.id] {
+					res = 1
+				}
+				env.mu.Unlock()
+			}
+			env.log(th.id, kRet, op.Code, res, 0, 0)
+			return [2]int{res, 0}
+		}
+	case "once":
+		var og OnceGuard
+		exec = func(th *vThread, op vOp) [2]int {
+			env.log(th.id, kInv, op.Code, 0, 0, 0)
+			res := 0
+			if op.Code == 0 {
+				if og.Take() {
+					res = 1
+				}
+			} else if og.Taken() {
+				res = 1
+			}
+			env.log(th.id, kRet, op.Code, res, 0, 0)
+			return [2]int{res, 0}
+		}
+	case "spin":
+		var l SpinLock
+		env.spinlock = &l
+		do := func(th *vThread, t int, op vOp) int {
+			env.log(t, kInv, op.Code, 0, 0, 0)
+			res := 0
+			switch op.Code {
+			case 0:
+				if th != nil {
+					atomic.StoreInt32(&th.spinning, 1)
+				}
+				l.Lock()
+				if th != nil {
+					atomic.StoreInt32(&th.spinning, 0)
+				}
+				res = 1
+			case 1:
+				if l.TryLock() {
+					res = 1
+				}
+			default:
+				l.Unlock()
+			}
+			env.log(t, kRet, op.Code, res, 0, 0)
+			return res
+		}
+		exec = func(th *vThread, op vOp) [2]int { return [2]int{do(th, th.id, op), 0} }
+		drain = func() bool { do(nil, 1000, vOp{Code: 2}); return true }
+	case "done":
+		dc := NewDoneChan()
+		exec = func(th *vThread, op vOp) [2]int {
+			env.log(th.id, kInv, op.Code, 0, 0, 0)
+			res := 0
+			if op.Code == 0 {
+				dc.Close()
+			} else {
+				select {
+				case <-dc.Done():
+					res = 1
+				default:
+				}
+			}
+			env.log(th.id, kRet, op.Code, res, 0, 0)
+			return [2]int{res, 0}
+		}
+	case "pool":
+		var nextID int32
+		var opts []PoolOption
+		if c.M > 0 {
+			opts = append(opts, WithMaxAge(time.Duration(c.M)*time.Millisecond))
+		}
+		p := NewPool(c.N, func() any {
+			id := int(atomic.AddInt32(&nextID, 1))
+			env.log(env.self(), kBegin, 3, id, nowMs(), 0)
+			return id
+		}, func(x any) {
+			env.log(env.self(), kEnd, 3, x.(int), nowMs(), 0)
+		}, opts...)
+		var heldMu sync.Mutex
+		put := func(t int, id int) {
+			env.log(t, kInv, 1, id, nowMs(), 0)
+			p.Put(id)
+			env.log(t, kRet, 1, 0, nowMs(), 0)
+		}
+		exec = func(th *vThread, op vOp) [2]int {
+			if op.Code == 0 {
+				env.log(th.id, kInv, 0, 0, nowMs(), 0)
+				id := p.Get().(int)
+				heldMu.Lock()
+				th.held = append(th.held, id)
+				heldMu.Unlock()
+				now := nowMs()
+				env.log(th.id, kRet, 0, id, now, 0)
+				return [2]int{id, 0}
+			}
+			heldMu.Lock()
+			if len(th.held) == 0 {
+				heldMu.Unlock()
+				return [2]int{0, 1}
+			}
+			id := th.held[len(th.held)-1]
+			th.held = th.held[:len(th.held)-1]
+			heldMu.Unlock()
+			put(th.id, id)
+			return [2]int{id, 0}
+		}
+		drain = func() bool {
+			heldMu.Lock()
+			for _, th := range env.threads {
+				if len(th.held) > 0 {
+					id := th.held[len(th.held)-1]
+					th.held = th.held[:len(th.held)-1]
+					heldMu.Unlock()
+					put(1000, id)
+					return true
+				}
+			}
+			heldMu.Unlock()
+			return false
+		}
+	case "rm":
+		m := NewResourceManager()
+		var nextID int32
+		exec = func(th *vThread, op vOp) (res [2]int) {
+			if op.Code == 1 {
+				env.log(th.id, kInv, 1, 0, 0, 0)
+				err := m.Close()
+				r := 0
+				if err != nil {
+					r = 1
+				}
+				env.log(th.id, kRet, 1, r, 0, 0)
+				return [2]int{r, 0}
+			}
+			env.log(th.id, kInv, 0, op.A, 0, 0)
+			defer func() {
+				if p := recover(); p != nil {
+					env.log(th.id, kRet, 0, op.A, 0, 2)
+					res = [2]int{0, 2}
+				}
+			}()
+			r, err := m.Get("k"+strconv.Itoa(op.A), func() (io.Closer, error) {
+				env.log(th.id, kBegin, 0, op.A, 0, 0)
+				env.waitGate(th, op.B)
+				if op.C != 0 {
+					env.log(th.id, kEnd, 0, op.A, 0, 1)
+					return nil, errVerifCreate
+				}
+				id := int(atomic.AddInt32(&nextID, 1))
+				env.log(th.id, kEnd, 0, op.A, id, 0)
+				return &vRes{id: id, env: env}, nil
+			})
+			if err != nil {
+				env.log(th.id, kRet, 0, op.A, 0, 1)
+				return [2]int{0, 1}
+			}
+			id := r.(*vRes).id
+			env.log(th.id, kRet, 0, op.A, id, 0)
+			return [2]int{id, 0}
+		}
+	case "tl":
+		l := NewTimeoutLimit(c.N)
+		do := func(t int, op vOp) [2]int {
+			env.log(t, kInv, op.Code, op.A, nowMs(), 0)
+			r := 0
+			begin := time.Now()
+			switch op.Code {
+			case 0:
+				if err := l.Borrow(time.Duration(op.A) * time.Millisecond); err == ErrTimeout {
+					r = 1
+				} else if err != nil {
+					r = 9
+				}
+			case 1:
+				if l.TryBorrow() {
+					r = 1
+				}
+			case 3:
+				// the Signal of a Return whose slot was taken by somebody else before the waiter retried
+				l.cond.Signal()
+			default:
+				if err := l.Return(); err == ErrLimitReturn {
+					r = 1
+				} else if err != nil {
+					r = 9
+				}
+			}
+			real := int(time.Since(begin) / time.Millisecond)
+			env.log(t, kRet, op.Code, r, nowMs(), real)
+			return [2]int{r, 0}
+		}
+		exec = func(th *vThread, op vOp) [2]int { return do(th.id, op) }
+		drain = func() bool { do(1000, vOp{Code: 2}); return true }
+	case "bar":
+		var b Barrier
+		exec = func(th *vThread, op vOp) [2]int {
+			env.log(th.id, kInv, 1, 0, 0, 0)
+			b.Guard(func() {
+				env.log(th.id, kBegin, 1, 0, 0, 0)
+				env.waitGate(th, op.B)
+				env.log(th.id, kEnd, 1, 0, op.C, 0)
+			})
+			env.log(th.id, kRet, 1, 0, op.C, 1)
+			return [2]int{1, op.C}
+		}
+	default:
+		return map[string]any{"error": "unknown primitive " + c.Prim}
+	}
+
+	// ---- threads
+	quit := make(chan struct{})
+	start := make(chan struct{})
+	var wg sync.WaitGroup
+	for i, script := range c.Scripts {
+		th := &vThread{id: i, kick: make(chan struct{}, 1), status: vIdle}
+		if len(script) == 0 {
+			th.status = vDone
+		}
+		env.threads = append(env.threads, th)
+		wg.Add(1)
+		ready := make(chan struct{})
+		go func(th *vThread, script []vOp) {
+			defer wg.Done()
+			id := vGoid()
+			atomic.StoreInt64(&th.goid, id)
+			env.mu.Lock()
+			env.goids[id] = th.id
+			env.mu.Unlock()
+			close(ready)
+			rnd := uint64(c.Seed)*2654435761 + uint64(th.id)*40503 + 1
+			for k, op := range script {
+				if c.Free {
+					<-start
+					for rnd = rnd*6364136223846793005 + 1442695040888963407; (rnd>>33)%3 != 0; rnd = rnd*6364136223846793005 + 1442695040888963407 {
+						runtime.Gosched()
+					}
+				} else {
+					select {
+					case <-th.kick:
+					case <-quit:
+						return
+					}
+				}
+				var res [2]int
+				func() {
+					defer func() {
+						if p := recover(); p != nil {
+							res = [2]int{0, 3}
+							env.log(th.id, kRet, op.Code, 0, 0, 3)
+						}
+					}()
+					res = exec(th, op)
+				}()
+				env.mu.Lock()
+				env.progress++
+				th.results = append(th.results, res)
+				if k == len(script)-1 {
+					th.status = vDone
+				} else if !c.Free {
+					th.status = vIdle
+				}
+				env.mu.Unlock()
+			}
+		}(th, script)
+		<-ready
+	}
+
+	// ---- controller
+	if c.Free {
+		env.mu.Lock()
+		for _, th := range env.threads {
+			if th.status == vIdle {
+				th.status = vRunning
+			}
+		}
+		env.mu.Unlock()
+		close(start)
+		for _, st := range c.Sched {
+			for i := 0; i < 3; i++ {
+				runtime.Gosched()
+			}
+			switch st.K {
+			case "o":
+				env.openGate(st.V)
+			case "a":
+				timex.VerifAdvance(time.Duration(st.V) * time.Millisecond)
+			}
+		}
+	}
+	for _, st := range c.Sched {
+		if c.Free {
+			break
+		}
+		if env.isAborted() {
+			break
+		}
+		switch st.K {
+		case "t":
+			if st.V >= 0 && st.V < len(env.threads) {
+				th := env.threads[st.V]
+				env.mu.Lock()
+				kick := th.status == vIdle
+				if kick {
+					th.status = vRunning
+				}
+				env.mu.Unlock()
+				if kick {
+					th.kick <- struct{}{}
+				}
+			}
+		case "o":
+			env.openGate(st.V)
+		case "a":
+			timex.VerifAdvance(time.Duration(st.V) * time.Millisecond)
+		case "w":
+			time.Sleep(time.Duration(st.V) * time.Millisecond)
+		}
+		env.quiesce()
+	}
+
+	// ---- wind down: open every gate, then unblock whoever is still parked
+	env.mu.Lock()
+	var all []int
+	for g := range env.gates {
+		all = append(all, g)
+	}
+	env.mu.Unlock()
+	for _, g := range all {
+		env.openGate(g)
+	}
+	if !env.isAborted() {
+		env.quiesce()
+	}
+	for i := 0; i < 64 && !env.isAborted(); i++ {
+		env.mu.Lock()
+		busy := 0
+		for _, th := range env.threads {
+			if th.status == vRunning || th.status == vAtGate {
+				busy++
+			}
+		}
+		env.mu.Unlock()
+		if busy == 0 {
+			break
+		}
+		if drain == nil || !drain() {
+			env.mu.Lock()
+			env.stuck = busy
+			env.mu.Unlock()
+			break
+		}
+		env.quiesce()
+	}
+	close(quit)
+	done := make(chan struct{})
+	go func() { wg.Wait(); close(done) }()
+	select {
+	case <-done:
+	case <-time.After(2 * time.Second):
+		env.mu.Lock()
+		env.stuck = -1
+		env.mu.Unlock()
+	}
+
+	env.mu.Lock()
+	defer env.mu.Unlock()
+	results := make([][][2]int, len(env.threads))
+	for i, th := range env.threads {
+		results[i] = append([][2]int{}, th.results...)
+	}
+	hist := append([][6]int{}, env.hist...)
+	return map[string]any{"hist": hist, "results": results, "timeouts": env.timeouts, "stuck": env.stuck,
+		"info": fmt.Sprintf("%s n=%d m=%d", c.Prim, c.N, c.M)}
+}
